@@ -247,6 +247,15 @@ def build_member(fam, k, side):
 # ---------------------------------------------------------------------------
 # the invariant
 
+def _safe(op, what, fn):
+    """accessor calls on an object the library itself produced must not raise"""
+    try:
+        return fn()
+    except Exception as e:  # noqa: BLE001
+        raise Violation('%s: %s() of the resulting object raised %s: %s' % (
+            op, what, type(e).__name__, e), 'forms:%s-raises:%s' % (what, op))
+
+
 def check_forms(obj, op):
     """vector and square forms describe the same symmetric zero-diagonal matrices; sizes agree"""
     d = obj.dissimilarities
@@ -257,18 +266,18 @@ def check_forms(obj, op):
     require(d.shape == (n_rdm, n_pairs(n_cond)),
             '%s: dissimilarities shape %s inconsistent with n_rdm=%r n_cond=%r' % (
                 op, d.shape, n_rdm, n_cond), 'forms:shape:' + op)
-    require(len(obj) == n_rdm, '%s: len() = %r, n_rdm = %r' % (op, len(obj), n_rdm),
-            'forms:len:' + op)
+    require(_safe(op, 'len', lambda: len(obj)) == n_rdm,
+            '%s: len() differs from n_rdm = %r' % (op, n_rdm), 'forms:len:' + op)
     for k, v in obj.rdm_descriptors.items():
         require(len(v) == n_rdm, '%s: rdm descriptor %r has %d entries for %d RDMs' % (
             op, k, len(v), n_rdm), 'forms:descriptor-length:' + op)
     for k, v in obj.pattern_descriptors.items():
         require(len(v) == n_cond, '%s: pattern descriptor %r has %d entries for %d conditions' % (
             op, k, len(v), n_cond), 'forms:descriptor-length:' + op)
-    v = obj.get_vectors()
+    v = _safe(op, 'get_vectors', obj.get_vectors)
     require(_eq_nan(v, d), '%s: get_vectors() differs from the stored vectors' % op,
             'forms:vectors:' + op)
-    m = obj.get_matrices()
+    m = _safe(op, 'get_matrices', obj.get_matrices)
     require(isinstance(m, np.ndarray) and m.shape == (n_rdm, n_cond, n_cond),
             '%s: get_matrices() shape %r for n_rdm=%r n_cond=%r' % (
                 op, getattr(m, 'shape', None), n_rdm, n_cond), 'forms:matrix-shape:' + op)
@@ -386,7 +395,7 @@ def _norm_list(v):
         x = norm(x)
         if isinstance(x, np.ndarray):
             x = ('arr', x.tolist())
-        elif isinstance(x, float) and x == int(x):
+        elif isinstance(x, float) and math.isfinite(x) and x == int(x):
             x = int(x)
         out.append(x)
     return out
